@@ -514,6 +514,9 @@ func (g gcsComp) Gen(r *rand.Rand, tier string, n int) []*wire.Case {
 	// big inputs: linear time and no leak
 	big := strings.Repeat(gcsPrograms[0]+gcsPrograms[1], 64*1024/(len(gcsPrograms[0])+len(gcsPrograms[1])))
 	add("d-big", big, strings.Repeat("(", 60000), strings.Repeat("-", 30000)+"1;", strings.Repeat("x ", 30000), strings.Repeat("[", 20000), strings.Repeat("a+", 30000)+"1;", big[:len(big)/2]+"\"")
+	// chains of prefix operators over every kind of operand (and over none): time grows with the length, not with 2^length
+	add("d-prefix-chains", "x = "+strings.Repeat("-", 60)+"y;", strings.Repeat("- ", 50)+"(a + b);", strings.Repeat("-!", 40)+"y;", strings.Repeat("-", 48), strings.Repeat("!", 3000)+"y;",
+		strings.Repeat("-", 30000)+"y;", "f("+strings.Repeat("-", 64)+"g(1));", "let z = "+strings.Repeat("- -", 30)+"[1, 2];", strings.Repeat("!-", 45)+"\"s\";", "x = "+strings.Repeat("-", 70)+";")
 	for i := 0; i < n; i++ {
 		var ops []*wire.Rec
 		for j := 0; j < 4; j++ {
